@@ -156,12 +156,24 @@ pub fn crc32(msg: &[u8]) -> u32 {
     C.checksum(msg)
 }
 
+/// RFC 8265 OpaqueString, the part the harness needs: every non-ASCII space (Unicode category Zs)
+/// is mapped to U+0020. (Inputs are otherwise kept NFC-stable by the drivers, so normalisation is
+/// the identity.)
+pub fn opaque(s: &str) -> String {
+    s.chars()
+        .map(|c| match c {
+            '\u{00A0}' | '\u{1680}' | '\u{2000}'..='\u{200A}' | '\u{202F}' | '\u{205F}' | '\u{3000}' => ' ',
+            _ => c,
+        })
+        .collect()
+}
+
 pub fn st_key(password: &str) -> Vec<u8> {
-    password.as_bytes().to_vec()
+    opaque(password).into_bytes()
 }
 /// alg: 1 = MD5, 2 = SHA-256 (RFC 8489 18.5)
 pub fn lt_key(user: &str, realm: &str, password: &str, alg: u16) -> Vec<u8> {
-    let s = format!("{}:{}:{}", user, realm, password);
+    let s = format!("{}:{}:{}", opaque(user), opaque(realm), opaque(password));
     if alg == 2 {
         sha256(s.as_bytes())
     } else {
